@@ -19,6 +19,11 @@ ASSUMPTIONS = ['int(), range(), sorted(), enumerate() behave as documented']
 MINIMUM = {'R13.1': 4, 'R13.2': 2, 'R13.3': 3, 'R13.4': 2, 'R13.5': 1, 'R13.6': 1}
 
 
+# rules of sibling properties that are necessary conditions of this one too
+# (evaluated by the sibling module on the same graphs, reported under this property)
+ALSO = {'C09': {'R09.6': ('every *.trashinfo is offered (indices refer to the whole listing)', 'restore:')},
+ 'C19': {'R19.2': 'the listing is sorted with a total key'}}
+
 def check(ctx):
     b = ctx.graph('restore')
     g = b.g
